@@ -204,10 +204,14 @@ def run(tier):
     inv = S.static_inventory()
     for h in inv:
         verdict.add_drift(f"process-wide mutable static found (sessions may no longer be independent): {h}")
+    # cross-subsystem walks judged against the umbrella specification (Session.tla); this property's clauses only
+    import sessionwalk
+    sw = sessionwalk.stage(PID, wd, tier, verdict)
     rc = verdict.finish(wd)
     keys = {k for k, _, _, _ in obs}
     repeated = len([1 for i in range(1, len(obs)) if obs[i][0] == obs[i - 1][0]])
     C.write_evidence(PID, tier, "model_checking", {
+        **sw,
         "states": m1["distinct"], "transitions": m1["states"],
         "traces_validated_against_impl": len(scripts),
         "samples": [{"session": scripts[n_model]["id"], "calls": [o.get("name", o.get("cmd", o["op"])) + ("=" + o["value"] if "value" in o else "")
